@@ -52,15 +52,6 @@ def runList [Inhabited α] (xs : List α) (left : Bool) : List α :=
   let o := if left then (fun a b => op b a) else op
   (cumopsArr o xs.toArray).toList
 
-/-- sequential reference fold on lists (the documented definition) -/
-def seqList (xs : List α) (left : Bool) : List α :=
-  match xs with
-  | [] => []
-  | x :: rest =>
-    (rest.foldl (fun (acc : α × List α) y =>
-        let z := if left then op y acc.1 else op acc.1 y
-        (z, z :: acc.2)) (x, [x])).2.reverse
-
 /-- A tensor of shape `(outer, L, inner)` flattened row-major; scanning `dim = 1` treats every
 `(o, ·, i)` fibre independently. -/
 def cumopsDim [Inhabited α] (outer L inner : Nat) (v : Nat → α) : Nat → α :=
@@ -69,5 +60,33 @@ def cumopsDim [Inhabited α] (outer L inner : Nat) (v : Nat → α) : Nat → α
     let j := (p / inner) % L
     let o := p / (inner * L)
     cumops op L (fun j' => v ((o * L + j') * inner + i)) j
+
+/-! ### the public wrappers (`cummul(_)`, `cumprod(_)`, `cumops(_)`, also behind `LieType.cum*` / `LieTensor.cum*`)
+
+`mul` is `*` and `mm` is `@` of the element type (for LieTensors both are the group product; for plain tensors
+`*` is element-wise and `@` is the matrix product). `left` defaults to `True` in both wrappers. -/
+inductive Api where
+  | cummul | cumprod
+deriving DecidableEq, Repr
+
+/-- the `ops` lambda a wrapper hands to `cumops_` -/
+def wrapperOp (mul mm : α → α → α) : Api → Bool → (α → α → α)
+  | .cummul, true => fun a b => mul b a
+  | .cummul, false => fun a b => mul a b
+  | .cumprod, true => fun a b => mm b a
+  | .cumprod, false => fun a b => mm a b
+
+/-- `left=None` in the model = argument omitted = the documented default `True` -/
+def resolveLeft : Option Bool → Bool
+  | none => true
+  | some b => b
+
+/-- a wrapper call on one fibre -/
+def wrapper (mul mm : α → α → α) (api : Api) (left : Option Bool) (L : Nat) (v : Nat → α) : Nat → α :=
+  cumops (wrapperOp mul mm api (resolveLeft left)) L v
+
+/-- executable: what the driver runs for a wrapper call on a list -/
+def runApi [Inhabited α] (mul mm : α → α → α) (api : Api) (left : Option Bool) (xs : List α) : List α :=
+  (cumopsArr (wrapperOp mul mm api (resolveLeft left)) xs.toArray).toList
 
 end PP.Scan
